@@ -25,9 +25,9 @@ EXTENDS CurveGen, Json, Randomization
 
 CONSTANTS N,        \* control lattice 0..N
           NC,       \* contours (curves mode)
-          Mode,     \* "quads" | "arcs" | "chords" | "cubics" | "curves"
+          Mode,     \* "quads" | "arcs" | "chords" | "cubics" | "curves" | "rotmix"
           Kinds,    \* curves: subset of {"L","Q","C","A"}
-          Fam,      \* arcs / curves: set of ellipse families (indices into CurveGen!Fams)
+          Fam,      \* arcs / curves: set of ellipse families (arcs: indices into XFams; curves: into CurveGen!Fams)
           Num,      \* random modes: scenarios per RandomSubset
           CubK      \* depth of the cubic subdivision (8^CubK * N * 4N must stay below 2^31)
 
@@ -175,9 +175,9 @@ Select(R, sqs) ==
             ELSE mixed
 Sup(fs, d) == LET f == Fold_(fs, d, Len(fs)) IN Select([lo |-> f.lo, hi |-> f.hi], f.sq)
 
-\* full-ellipse extremes (direction d) of the rotated arcs whose extreme point is NOT on the arc
-OffList(fs, d) == LET idx == {i \in 1..Len(fs) : fs[i][2].k = "A" /\ fs[i][2].rot \in {1, 2} /\ ~ArcOnExt(fs[i][1], fs[i][2], d)}
-                  IN SetToSeq({SqSide(<<Dt(d, fs[i][2].c1), 1, 1, ExtNum(fs[i][2], d), 25>>) : i \in idx})
+\* full-ellipse extremes (direction d) of the rotated arcs whose extreme point is on the arc (on = TRUE) / NOT on the arc
+RotList(fs, d, on) == LET idx == {i \in 1..Len(fs) : fs[i][2].k = "A" /\ fs[i][2].rot \in {1, 2} /\ ArcOnExt(fs[i][1], fs[i][2], d) = on}
+                      IN SetToSeq({SqSide(<<Dt(d, fs[i][2].c1), 1, 1, ExtNum(fs[i][2], d), 25>>) : i \in idx})
 
 \* ---- sides: value v -> -v  and  v -> (k v + t) / 4 -----------------------------------------------------------------
 NegSide(x) == IF x[1] = 0 THEN <<0, -x[4], x[5], -x[2], x[3], 0>> ELSE <<1, -x[2], x[3], x[4], x[5], -x[6]>>
@@ -189,10 +189,11 @@ LinSide(k, t, x) ==
 SideEq(x, y) == /\ x[1] = y[1] /\ x[6] = y[6]
                 /\ RCmp(<<x[2], x[3]>>, <<y[2], y[3]>>) = 0 /\ RCmp(<<x[4], x[5]>>, <<y[4], y[5]>>) = 0
 
-\* the box: per side [v |-> form, off |-> forms of off-arc extremes of rotated arcs], order x0, y0, x1, y1
+\* the box: per side [v |-> form, off / on |-> forms of the off-arc / on-arc extremes of rotated arcs], order x0, y0, x1, y1
 \* (a tuple, not a function constructor: TLC would re-evaluate a function body at every application)
-SideRec(fs, i) == LET v == Sup(fs, Dirs[i]) ol == OffList(fs, Dirs[i]) IN
-                  IF i <= 2 THEN [v |-> NegSide(v), off |-> [j \in 1..Len(ol) |-> NegSide(ol[j])]] ELSE [v |-> v, off |-> ol]
+SideRec(fs, i) == LET v == Sup(fs, Dirs[i]) ol == RotList(fs, Dirs[i], FALSE) nl == RotList(fs, Dirs[i], TRUE) IN
+                  IF i <= 2 THEN [v |-> NegSide(v), off |-> [j \in 1..Len(ol) |-> NegSide(ol[j])], on |-> [j \in 1..Len(nl) |-> NegSide(nl[j])]]
+                  ELSE [v |-> v, off |-> ol, on |-> nl]
 BoxOf(p) == LET fs == FlatSegs(p) s1 == SideRec(fs, 1) s2 == SideRec(fs, 2) s3 == SideRec(fs, 3) s4 == SideRec(fs, 4)
             IN <<s1, s2, s3, s4>>
 
@@ -201,7 +202,7 @@ E(name, swap, sx, sy, tx, ty) == [name |-> name, swap |-> swap, sx |-> sx, sy |-
 Embs == << E("id", 0, 4, 4, 0, 0), E("flipx", 0, -4, 4, 0, 0), E("flipy", 0, 4, -4, 0, 0), E("rot180", 0, -4, -4, 0, 0),
            E("transpose", 1, 4, 4, 0, 0), E("antitranspose", 1, -4, -4, 0, 0), E("translate", 0, 4, 4, 74, -13),
            E("half", 0, 2, 2, 0, 0), E("flipx-shift", 0, -4, 4, 40, 12), E("rot90", 1, -4, 4, 0, 0) >>
-MapSideRec(k, t, r) == [v |-> LinSide(k, t, r.v), off |-> [j \in 1..Len(r.off) |-> LinSide(k, t, r.off[j])]]
+MapSideRec(k, t, r) == [v |-> LinSide(k, t, r.v), off |-> [j \in 1..Len(r.off) |-> LinSide(k, t, r.off[j])], on |-> [j \in 1..Len(r.on) |-> LinSide(k, t, r.on[j])]]
 MapBox(e, B) == LET sxlo == IF e.swap = 1 THEN B[2] ELSE B[1] sxhi == IF e.swap = 1 THEN B[4] ELSE B[3]
                     sylo == IF e.swap = 1 THEN B[1] ELSE B[2] syhi == IF e.swap = 1 THEN B[3] ELSE B[4]
                 IN << MapSideRec(e.sx, e.tx, IF e.sx > 0 THEN sxlo ELSE sxhi), MapSideRec(e.sy, e.ty, IF e.sy > 0 THEN sylo ELSE syhi),
@@ -256,10 +257,24 @@ Pt == (0..N) \X (0..N)
 BaseVecs == [1..4 -> 0..32767]
 Expand(b, salt) == [i \in 1..GenLen |-> (b[(i % 4) + 1] * (2 * i + 1 + 2 * salt) + b[((i + 1) % 4) + 1] * 7919 + b[((i + 2 + salt) % 4) + 1]
                                            + (i + 31 * salt) * 104729) % 9973]
-ArcSet == UNION {LET pts == FamSeq[f] r == FamR(f) c0 == <<r, r>> IN
-                   {<<Ctr(PAdd(c0, pts[x[1]]), <<MkArc(f, c0, pts[x[1]], pts[x[2]], x[3], x[4])>>, FALSE)>> :
+\* ellipse families: CurveGen!Fams (1..12) plus four ellipses rotated by atan(3/4) that carry EIGHT lattice points (the
+\* rotated families of CurveGen carry only the four ends of their axes, where every quadrant decision is trivially right)
+XFams == Fams \o << [rad |-> <<20, 5>>, rot |-> 1], [rad |-> <<5, 20>>, rot |-> 1], [rad |-> <<15, 10>>, rot |-> 1], [rad |-> <<10, 15>>, rot |-> 1] >>
+XProto(f) == Ar(Z2, XFams[f].rad, XFams[f].rot, 0, 0, Z2)
+XFamR(f) == MaxI(XFams[f].rad[1], XFams[f].rad[2])
+XFamSeq == [f \in 1..Len(XFams) |-> SetToSeq({s \in (-20..20) \X (-20..20) : EllF(XProto(f), s) = 0})]
+XMkArc(f, c, a, b, sw, lgHalf) ==
+    LET g0 == Ar(c, XFams[f].rad, XFams[f].rot, 0, sw, PAdd(c, b)) t == ArcTurn(PAdd(c, a), g0)
+    IN [g0 EXCEPT !.lg = IF t = 0 THEN lgHalf ELSE IF (sw = 1) = (t > 0) THEN 0 ELSE 1]
+ArcSet == UNION {LET pts == XFamSeq[f] r == XFamR(f) c0 == <<r, r>> IN
+                   {<<Ctr(PAdd(c0, pts[x[1]]), <<XMkArc(f, c0, pts[x[1]], pts[x[2]], x[3], x[4])>>, FALSE)>> :
                        x \in {y \in (1..Len(pts)) \X (1..Len(pts)) \X {0, 1} \X {0, 1} :
-                                 y[1] # y[2] /\ (y[4] = 0 \/ ArcTurn(PAdd(c0, pts[y[1]]), MkArc(f, c0, pts[y[1]], pts[y[2]], y[3], 0)) = 0)}} : f \in Fam}
+                                 y[1] # y[2] /\ (y[4] = 0 \/ ArcTurn(PAdd(c0, pts[y[1]]), XMkArc(f, c0, pts[y[1]], pts[y[2]], y[3], 0)) = 0)}} : f \in Fam}
+\* an arc of the eight-point rotated families (centre (20,20)) + a second contour of CurveGen on the lattice 0..10 scaled by 4
+RotMix(b) == LET rv == Expand(b, 0) f == 13 + (rv[1] % 4) pts == XFamSeq[f] np == Len(pts) c0 == <<20, 20>>
+                 ia == rv[2] % np ib == (ia + 1 + (rv[3] % (np - 1))) % np
+             IN << Ctr(PAdd(c0, pts[ia + 1]), <<XMkArc(f, c0, pts[ia + 1], pts[ib + 1], rv[4] % 2, rv[5] % 2)>>, rv[6] % 2 = 0),
+                   ScaleCtr(4, DecodeCtr(Expand(b, 1), 10, Kinds \cup {"L"}, Fam)) >>
 \* chord arcs: radii 1..N, chord length 1..2N+2 (longer than the diameter: radii are scaled), both travel directions, all flags
 ChordSet == {LET w == x[3] x1 == IF x[4] = 1 THEN 1 ELSE 1 + w x2 == IF x[4] = 1 THEN 1 + w ELSE 1
              IN <<Ctr(<<x1, 2>>, <<ChordArc(<<x[1], x[2]>>, x[5], x[6], <<x2, 2>>)>>, FALSE)>> :
@@ -269,6 +284,7 @@ PathChoice ==
       [] Mode = "arcs"   -> ArcSet
       [] Mode = "chords" -> ChordSet
       [] Mode = "cubics" -> {<<Ctr(<<v[1], v[2]>>, <<Cb(<<v[3], v[4]>>, <<v[5], v[6]>>, <<v[7], v[8]>>)>>, v[9] % 2 = 1)>> : v \in RandomSubset(Num, [1..9 -> 0..N])}
+      [] Mode = "rotmix" -> {RotMix(b) : b \in RandomSubset(Num, BaseVecs)}
       [] Mode = "curves" -> IF NC = 1 THEN {<<DecodeCtr(Expand(b, 0), N, Kinds, Fam)>> : b \in RandomSubset(Num, BaseVecs)}
                             ELSE {<<DecodeCtr(Expand(b, 0), N, Kinds, Fam), DecodeCtr(Expand(b, 1), N, Kinds \cup {"L"}, Fam)>> : b \in RandomSubset(Num, BaseVecs)}
 
@@ -304,7 +320,7 @@ WayPts(a0, g) ==
       [] g.k = "C" -> LET ps == CubPieces(<<PMul(512, a0), PMul(512, g.c1), PMul(512, g.c2), PMul(512, g.p)>>, 3)
                       IN {<<ps[i][1][1], ps[i][1][2], 512>> : i \in 1..Len(ps)} \cup {<<512 * g.p[1], 512 * g.p[2], 512>>}
       [] g.k = "A" -> IF g.rot = 3 THEN {<<a0[1], a0[2], 1>>, <<g.p[1], g.p[2], 1>>}
-                      ELSE {<<s[1], s[2], 1>> : s \in {t \in ((g.c1[1] - 15)..(g.c1[1] + 15)) \X ((g.c1[2] - 15)..(g.c1[2] + 15)) :
+                      ELSE {<<s[1], s[2], 1>> : s \in {t \in ((g.c1[1] - 20)..(g.c1[1] + 20)) \X ((g.c1[2] - 20)..(g.c1[2] + 20)) :
                                                          BEllF(g, t) = 0 /\ ArcWB(a0, g, t)[2] = 1}}
 BoxContains == done => LET fs == FlatSegs(path) IN
     \A k \in 1..4 : LET s == Sup(fs, Dirs[k]) IN
